@@ -46,6 +46,10 @@ def faults(quick: bool):
             out.append(("rule:%s@%s" % (rid, where), ("rule", where, defs)))
     out.append(("evolution:removed-step", ("files", {"main/model.yml": BREAKING_MAIN})))
     out.append(("evolution:enum-changed", ("files", {"main/model.yml": ENUM_CHANGE_MAIN, "v0/model.yml": ENUM_CHANGE_V0})))
+    out.append(("evolution:incompatible-version-listed-first", ("files", {"main/model.yml": BREAKING_MAIN, "v1/_package.yml": "namespace: Main\nimports:\n  - ../lib\n", "v1/model.yml": BREAKING_MAIN},
+                "versions:\n  v0: ../v0\n  v1: ../v1\n")))
+    out.append(("evolution:incompatible-version-listed-last", ("files", {"main/model.yml": BREAKING_MAIN, "v1/_package.yml": "namespace: Main\nimports:\n  - ../lib\n", "v1/model.yml": BREAKING_MAIN},
+                "versions:\n  v1: ../v1\n  v0: ../v0\n")))
     out.append(("evolution:missing-version-dir", ("manifest", "versions:\n  v0: ../v0\n  v1: ../nowhere\n")))
     out.append(("evolution:duplicate-label", ("manifest", "versions:\n  v0: ../v0\n  v0: ../v0\n")))
     out.append(("manifest:unknown-key", ("manifest_append", "bogus: 1\n")))
@@ -91,7 +95,8 @@ def apply_fault(base, outcfg, fault):
         for rel, text in fault[1].items():
             common.write_file(os.path.join(W, rel), text)
         if len(fault) > 2:
-            s = open(man_path).read().replace("imports:\n  - ../lib\n", fault[2])
+            key = "versions:\n  v0: ../v0\n" if fault[2].startswith("versions:") else "imports:\n  - ../lib\n"
+            s = open(man_path).read().replace(key, fault[2])
             open(man_path, "w").write(s)
     elif kind == "manifest":
         s = open(man_path).read().replace("versions:\n  v0: ../v0\n", fault[1])
